@@ -155,11 +155,15 @@ fn touch<M: ShortMessage>(m: &M) -> u64 {
 fn messages(chk: &Check, calls: &AtomicU64, tier: Tier) {
     // every valid triple (quick: data bytes on a 24-value grid incl. all boundaries; thorough: all)
     let grid: Vec<u8> = if tier.thorough() { (0..128).collect() } else { vec![0, 1, 2, 5, 6, 7, 8, 15, 16, 31, 32, 38, 63, 64, 96, 97, 98, 101, 112, 119, 120, 121, 126, 127] };
+    let all: Vec<u8> = (0..128).collect();
     (0x80..=0xFFu8).into_par_iter().for_each(|s| {
         let grid = &grid;
+        let all = &all;
         zone(chk, &format!("short-message/status#{:02X}", s), calls, || {
             let mut n = 0u64;
-            for &d1 in grid.iter() {
+            // Control Change: every controller number (they are semantically distinct); others: the grid
+            let d1s: &Vec<u8> = if s & 0xF0 == 0xB0 { all } else { grid };
+            for &d1 in d1s.iter() {
                 for &d2 in grid.iter() {
                     let b = (s, u7(d1), u7(d2));
                     let r = RawShortMessage::from_bytes(b).unwrap();
@@ -210,8 +214,10 @@ fn factories(chk: &Check, calls: &AtomicU64) {
             let mut n = 0u64;
             type R = RawShortMessage;
             type S = StructuredShortMessage;
-            for a in (0..128u8).step_by(3).chain([127u8]) {
-                for b in (0..128u8).step_by(5).chain([127u8]) {
+            // complete 128 x 128 grid: an assertion that is only compiled in unoptimised builds can
+            // single out any argument value (e.g. one controller number)
+            for a in 0..128u8 {
+                for b in 0..128u8 {
                     black_box((R::note_on(ch(c), kn(a), u7(b)), S::note_on(ch(c), kn(a), u7(b))));
                     black_box((R::note_off(ch(c), kn(a), u7(b)), S::note_off(ch(c), kn(a), u7(b))));
                     black_box((R::control_change(ch(c), cn(a), u7(b)), S::control_change(ch(c), cn(a), u7(b))));
